@@ -77,4 +77,24 @@ let c14_validate_params (line : string) : string =
     verdict_line (params_of flags) (int_of_string nbuild) (schema_of_transport mark dump)
   | _ -> failwith "c14_validate_params line"
 
-let families = [ ("c14_validate", c14_validate); ("c14_validate_params", c14_validate_params) ]
+(* the literal models of apollo's two cycle searches (Schema/Cycles.v) on every input object / directive
+   definition of the schema: `ri=` some input object search returns Recursed, `rd=` some directive search
+   returns Recursed, `deep=` some search hits the recursion limit *)
+let c14_cycles (line : string) : string =
+  match String.split_on_char ' ' line with
+  | [_src; _nbuild; mark; dump] ->
+    let s = schema_of_transport mark dump in
+    let ri = ref false and rd = ref false and deep = ref false in
+    let note flag r = (match r with
+      | CyRecursed -> flag := true | CyLimit -> deep := true
+      | CyFuel -> failwith "cycle search out of fuel" | CyOk -> ()) in
+    List.iter (fun t -> match t with
+      | EInput (_, n, _, fs, _) -> note ri (cy_input_check s n (List.map (fun c -> c.c_val) fs))
+      | _ -> ()) s.sch_types;
+    List.iter (fun d -> note rd (cy_dir_check s d)) s.sch_dirdefs;
+    let b x = if !x then "1" else "0" in
+    "ri=" ^ b ri ^ " rd=" ^ b rd ^ " deep=" ^ b deep
+  | _ -> failwith "c14_cycles line"
+
+let families = [ ("c14_validate", c14_validate); ("c14_validate_params", c14_validate_params);
+                 ("c14_cycles", c14_cycles) ]
